@@ -139,6 +139,24 @@ def lookalike(rng, value, depth=0):
     return value
 
 
+def deep_lookalike(value):
+    """The look-alike of a nested literal at its innermost scalar (True <-> 1, False <-> 0, 1 <-> True ...)."""
+    if isinstance(value, list) and value:
+        return [deep_lookalike(value[0])] + list(value[1:])
+    if isinstance(value, dict) and value:
+        key = sorted(value)[0]
+        return {**value, key: deep_lookalike(value[key])}
+    if value is True:
+        return 1
+    if value is False:
+        return 0
+    if value == 1 and not isinstance(value, bool):
+        return True
+    if value == 0 and not isinstance(value, bool):
+        return False
+    return value
+
+
 def contains_bool_lookalike(value, depth=0):
     """Does a container hold (below top level) a bool, 0, 1, 0.0 or 1.0?"""
     if isinstance(value, list):
@@ -182,6 +200,8 @@ def key_for_pattern(rng, pattern, want=True):
 
 def numeric_candidates(rng, schema):
     cands = [0, 1, -1, 2, 0.5, 1.0, 0.0]
+    if rng.random() < 0.25:
+        cands += [2 ** 64, 2 ** 70, 10 ** 20, 10 ** 22, -(2 ** 64), 2 ** 63, 10 ** 18 + 1]
     for key in ("minimum", "maximum", "exclusiveMinimum", "exclusiveMaximum"):
         if key in schema:
             bound = schema[key]
@@ -204,6 +224,7 @@ def numeric_candidates(rng, schema):
         # the top of the float range (where the quotient overflows)
         try:
             cands += [mult * 2 ** 60, mult * 2 ** 60 + 1, mult * (2 ** 53 + 1), 2 ** 53 + 1, 10 ** 30 + 1, 1e308,
+                      2 ** 64, 2 ** 70, 10 ** 20, 10 ** 22, 2 ** 1000,
                       -1e308, 1.7976931348623157e308, 1e300, 2.0 ** 1000]
         except OverflowError:
             pass
@@ -532,6 +553,10 @@ def batch_for_schema(rng, schema, root=None, count=8, lookalikes=True):
             out.append(satisfy(rng, schema, root, tries=2))
         else:
             out.append(random_value(rng, 2))
+    if isinstance(schema, dict):
+        for literal in ([schema["const"]] if "const" in schema else []) + list(schema.get("enum") or [])[:2]:
+            if isinstance(literal, (list, dict)) and literal:
+                out.append(deep_lookalike(copy.deepcopy(literal)))
     if isinstance(schema, dict) and isinstance(schema.get("dependencies"), dict):
         # dependency probes: an otherwise valid object plus the triggering member (decisive for a dependency
         # whose value is `false`, an empty list, or a schema)
